@@ -244,3 +244,37 @@ Definition aud_oracle_bad (k : aud_case) (a : string) (sh : cond_shape) : bool :
 Definition case_oracle_bad (k : aud_case) : bool :=
   Z.eqb (k_status k) 2                                                              (* a crash is a failure by itself *)
   || existsb (fun '(a, sh) => aud_oracle_bad k a sh) (k_shapes k).
+
+(** Which clause of the oracle fails (bit set): 1 starts/stops do not
+    alternate, 2 a period is left open at the end of the play, 4 a report
+    outside every period, 8 a period's codes are not those of a fresh evaluator
+    with exactly one end judgement, 16 the periods are not the stretches over
+    which the condition holds, 32 a crash. *)
+Definition aud_oracle_code (k : aud_case) (a : string) (sh : cond_shape) : N :=
+  let js := judge_of_aud a (k_judge k) in
+  let ps := periods_of js in
+  let reps := reports_of_aud a (k_coll k) in
+  let ran_to_end := Z.eqb (k_status k) 0 in
+  ((if alternates true js then 0 else 1)
+   + (if (if ran_to_end then closed js else true) then 0 else 2)
+   + (if forallb (fun '(r, _) => in_some_period ps r) reps then 0 else 4)
+   + (if match (if same_index_restart js then None else member_expect (k_cfg k) a) with
+         | Some (Some tbl) =>
+             forallb (fun '(i, j) =>
+                        let codes := codes_in reps i j in
+                        match j with
+                        | Some _ => fresh_run_possible tbl [f_start tbl] codes true
+                        | None => match codes with [] => true | _ => fresh_run_possible tbl [f_start tbl] codes false end
+                        end) ps
+         | _ => true
+         end then 0 else 8)
+   + (if (if ran_to_end then
+            match expected_for sh (k_events k) with
+            | Some ex => judgements_eqb js ex
+            | None => true
+            end
+          else true) then 0 else 16))%N.
+
+Definition case_oracle_code (k : aud_case) : N :=
+  ((if Z.eqb (k_status k) 2 then 32 else 0)
+   + fold_left N.lor (map (fun '(a, sh) => aud_oracle_code k a sh) (k_shapes k)) 0)%N.
